@@ -632,7 +632,7 @@ func (m *GRPCBroker) Run() {
 		}
 
 		// Initialize the waiter
-		verifhook.Point("grpc.run.recv", m, int64(msg.ServiceId), verifhook.B(msg.Knock != nil))
+		verifhook.Point("grpc.run.recv", m, int64(msg.ServiceId), verifhook.B(msg.Knock != nil)+verifhook.B(msg.Knock != nil && msg.Knock.Ack))
 		var p *gRPCBrokerPending
 		if msg.Knock != nil && msg.Knock.Knock && !msg.Knock.Ack {
 			p = m.getServerStream(msg.ServiceId)
